@@ -14,7 +14,7 @@ from prosemirror.model.to_dom import DOMSerializer
 from prosemirror.transform import Mapping, ReplaceStep, StepMap, Transform
 
 PROPERTY = "C10"
-BOUNDS = ("catalogue documents of the list/strict/iso schemas; 21 Transform operation kinds and 24 model/step/mapping/"
+BOUNDS = ("catalogue documents of the list/strict/iso schemas; 21 Transform operation kinds and 25 model/step/mapping/"
           "serialisation operations, each with symbolic integer arguments; live set = template, slice/node/mark "
           "catalogues, one step with its map, Transform prefix, singletons")
 ASSUMPTIONS = ["sequences of operations follow by induction (no operation keeps hidden state besides the two accumulators); not discharged by the solver",
@@ -109,6 +109,7 @@ def model_ops(C):
         ("cut", lambda a, b, x: d.cut(a, b)),
         ("replace", lambda a, b, x: d.replace(a, b, C.slices[x % len(C.slices)])),
         ("resolve", lambda a, b, x: (d.resolve(a).marks(), d.resolve(a).block_range(d.resolve(b)), d.resolve(a).node_before, d.resolve(a).node_after)),
+        ("marks_across", lambda a, b, x: (d.resolve(a).marks_across(d.resolve(b)), d.resolve(b).marks_across(d.resolve(a)), d.range_has_mark(a, b, C.marks[0]) if C.marks else None)),
         ("nodes_between", lambda a, b, x: d.nodes_between(a, b, lambda *k: None)),
         ("text_between", lambda a, b, x: d.text_between(a, b, "|")),
         ("node_at", lambda a, b, x: (d.node_at(a), d.child_after(0), d.child_before(d.content.size))),
@@ -167,7 +168,7 @@ QUICK = [("list", 1), ("strict", 0)]
 def obligations(tier, seed):
     T = 200 if tier == "quick" else 900
     obs = opcheck.op_obligations(tier, QUICK, ops.KINDS, ["list", "strict", "iso"], T, xs_quick=2, step_quick=5)
-    for (sn, i) in ([("list", 1), ("list", 7)] if tier == "quick" else [("list", j) for j in range(12)] + [("strict", 0), ("iso", 0)]):
+    for (sn, i) in ([("list", 1), ("list", 5)] if tier == "quick" else [("list", j) for j in range(12)] + [("strict", 0), ("iso", 0)]):
         C = ops.payloads(common.load({"schema": sn, "doc": i}))
         make_live(C)
         for k in range(len(model_ops(C))):
